@@ -1313,7 +1313,7 @@ static void CodeALIGN(Word Index) {
                 if (1 == ArgCnt) {
                     DontPrint = !!CodeLen;
                     BookKeeping();
-                } else if ((LargeInt)CodeLen * Granularity() > (LargeInt)MaxCodeLen) {
+                } else if (SetMaxCodeLen(CodeLen * Granularity())) {
                     WrError(ErrNum_CodeOverflow);
                     CodeLen = 0;
                 } else {
